@@ -28,7 +28,8 @@
 //! parts:  main      elections, votes, appends, conflict truncations, leadership, proposals,
 //!                   commitment + log compaction behind a snapshot (finalize_to + tick_async, or
 //!                   create_snapshot + truncate_log), deposition of a leader with a compacted log
-//!         snapshot  the same plus `install_snapshot` (direct and via SnapshotResponse)
+//!         snapshot  the same plus `install_snapshot` (direct and via SnapshotResponse) of snapshots
+//!                   from leaders with full and with compacted logs (snapshot starts after index 1)
 
 use common::*;
 use h_chain::CaptureTransport;
@@ -659,6 +660,12 @@ impl Sim {
             r.count("append_success", 1);
             for e in &entries {
                 let i = e.index as usize;
+                if e.index <= self.base {
+                    // a position the node has compacted behind a snapshot: it answers for the
+                    // snapshot, it does not hold (or promise to hold) the entry
+                    r.count("entries_at_compacted_positions", 1);
+                    continue;
+                }
                 if i > self.model_log.len() {
                     self.model_log.push(e.term);
                     r.count("entries_appended", 1);
@@ -1630,9 +1637,9 @@ fn main() {
         rule: "A case = one real RaftNode::with_wal driven by a seeded hostile environment for 3-12 protocol steps (one step may be a whole leadership: win an election, replicate and commit entries, accept more, compact the log behind a snapshot, get deposed by a leader that lacks the uncommitted tail), then up to 3 times: cut the real WAL file at a chosen byte (60% inside one of the last three records, 15% anywhere, 25% between records), restart the real node on it, drive 2-8 more steps. After every phase every truncation of the (new part of the) WAL file — every byte when the part is <= 1400 (quick) / 3000 (thorough) bytes, otherwise all record/ack boundaries -2..+9 bytes, every byte of the last three records and a seeded sample — is restarted with RaftNode::with_wal and judged against the promise ledger (term, vote of the recovered term, acknowledged entries by position and bytes, log shape at ack boundaries, and a probing RequestVote from another candidate). One evaluation = one phase (one WAL file with its ledger); it is distinct by the hash of the WAL bytes and non-trivial when at least one obligation applied to some judged image and at least one judged image ended inside a record.",
         assumptions: vec![
             "crashes are process crashes: the file keeps a prefix of what had reached it (write(2) level); bytes still in a user-space buffer when a call returned are lost — that is how 'answered before the record reached the file' is observed; fsync itself is not observable here".into(),
-            "obligations come only from what the node emitted: replies of handle_message, messages it put on the transport, Ok results of propose; an entry obligation ends only when the node later answers success to an AppendEntries carrying a different-term entry at or below that index, or (snapshot part) when a snapshot install replaces the log with different entries from that index on (entries the snapshot repeats stay promised during the install's own WAL writes) or cuts the log behind the snapshot".into(),
-            "entries are looked up by position (index i at position i-1), which is how a restarted node (no compaction offset) addresses its log".into(),
-            "beyond the letter of the statement: at an ack boundary (no write in flight) the restarted node must report the same (log_length, last_log_index, last_log_term) the live node reported there — a truncated suffix must not reappear; signature log-differs-at-ack-boundary; for a live node that compacted its log the logical length (log_length + last_log_index - log_length offset) is compared".into(),
+            "obligations come only from what the node emitted: replies of handle_message, messages it put on the transport, Ok results of propose; an entry obligation ends only when the node later answers success to an AppendEntries carrying a different-term entry at or below that index, or (snapshot part) when a snapshot install replaces the log with different entries from that index on (entries the snapshot repeats stay promised during the install's own WAL writes), cuts the log behind the snapshot, or covers what precedes its first entry; an install on a node that already holds the snapshot's last entry (same index and term) changes no promise".into(),
+            "a restarted node holds indices (last_log_index - log_length + 1)..=last_log_index (the run of consecutive indices that ends the recovered log); a promised entry must be held there with the same bytes. Entries carried by an AppendEntries at positions the live node has compacted behind a snapshot create no promise (the node answers for the snapshot there), and promises for entries in front of an installed snapshot's first entry end with that install".into(),
+            "beyond the letter of the statement, at an ack boundary (no write in flight): the restarted node's last_log_index/last_log_term equal the live node's and its first held index is <= the live node's (a prefix the live node compacted may come back from the WAL) — signature log-differs-at-ack-boundary (a truncated suffix must not reappear); and no entry it holds contradicts the live node's log at that index, the positions the live node had compacted behind an installed snapshot included (reference: the Raft follower/snapshot rules applied to the messages the node answered) — signature restarted-log-contradicts-live-log (entries superseded by a snapshot must not reappear in front of it)".into(),
             "the environment is a well-formed Raft world: one leader per term, leader logs are prefix-consistent, entry content is a function of (index, term); terms in which n0 campaigned are never given to another leader; whatever the live node regards as committed (commit_index: leader_commit of an accepted AppendEntries — never beyond the last entry that message establishes —, own majority acknowledgements, an installed snapshot) is held by every later leader; only committed entries are finalized and compacted; a leader is acknowledged by followers only while no later-term leader exists".into(),
             "signature = <what>:<context>; context append-after-torn-tail = the image contains records the node appended behind a partial record left by an earlier crash of the chain; after-snapshot-install = the image contains records written after a snapshot install; else clean-wal".into(),
         ],
@@ -1657,7 +1664,10 @@ fn main() {
                 ("vote_probes", 20_000),
                 ("ack_boundary_shape_checks", 1_500),
                 ("snapshots_installed", 30),
-                ("snapshot_installs_repeating_held_entries", 20),
+                ("snapshot_installs_repeating_held_entries", 15),
+                ("snapshot_installs_from_a_compacted_leader", 10),
+                ("snapshot_installs_log_kept", 10),
+                ("ack_boundary_content_checks", 1_000),
                 ("log_compactions", 40),
                 ("conflict_truncations_on_a_compacted_log", 8),
             ]
